@@ -3,7 +3,7 @@
    real linker computed; each checker recomputes with the model (or evaluates
    the ECMA-262 specification side) and returns the indices of the cases that
    disagree. *)
-From V Require Import Common.Base C02.Graph C02.Order C02.SpecESM C02.Wrap C02.Resolve C02.DataUrl C02.SpecDataUrl C02.Emit.
+From V Require Import Common.Base C02.Graph C02.Order C02.SpecESM C02.Wrap C02.Resolve C02.DataUrl C02.SpecDataUrl C02.Emit C02.ResolveSpec.
 
 Fixpoint mism_from {A} (f : A -> bool) (l : list A) (i : nat) : list nat :=
   match l with
@@ -107,8 +107,8 @@ Definition resolved_ok (c : case) : bool :=
   end.
 Definition check_resolved := mismatches resolved_ok.
 
-Definition model_resolved (g : graph) (kinds : nat -> ekind) : nat -> list edata :=
-  fun s => match resolved_exports g kinds s with Some l => l | None => [] end.
+(* the same function the theorems of Properties.v are about *)
+Definition model_resolved (g : graph) (kinds : nat -> ekind) : nat -> list edata := resolved_of g kinds.
 
 (* [gen]: the import item was generated by the parser from a property access on a
    namespace import; its symbol carries a NamespaceAlias from parsing on, so only the
